@@ -48,6 +48,14 @@ func chunkLimitCases(seed uint64) []xzCase {
 			i++
 		}
 	}
+	// short runs that end inside the look-ahead, over several revolutions of a small ring buffer
+	for _, b := range []int{273, 0, 65536} {
+		for _, d := range []int{4096, 5000} {
+			out = append(out, xzCase{ID: fmt.Sprintf("lim%d", i), LC: 3, PB: 2, DictCap: d, BufSize: b, Check: "crc32", Matcher: i % 2,
+				Family: "shortruns", N: 60000 + 1000*i, Part: []string{"one", "random", "iocopy"}[i%3], Seed: seed + 2000 + uint64(i)*10})
+			i++
+		}
+	}
 	return out
 }
 
